@@ -92,18 +92,27 @@ Print Assumptions index_dead_refuted.
 
 (** min/max pruning never claims "no match" when a match exists -- for node and edge columns, all
     six operators, every value type, nulls, overwrites, removals (outside K4: a strict comparison
-    on a column where an Int64 of magnitude >= 2^53 meets a Float64, and K5: <> on a column
-    holding, or bounded by, a value of another type or a NaN).  For <> with a Float64 query value
-    the floats of the history and the query value must be 64-bit patterns (the model keeps bit
-    patterns as unbounded integers). *)
+    on a column where an Int64 of magnitude >= 2^53 meets a Float64) *)
 Theorem might_match_sound : forall b ops (node : bool) key o q,
+  let s := run (init b) ops in
+  let p := if node then nprops s else eprops s in
+  ps_round_class p key o q = false ->
+  ps_might_match p key o q = false -> forall n x, ps_get p n key = Some x -> sat o x q = false.
+Proof. exact might_match_sound_l. Qed.
+Print Assumptions might_match_sound.
+
+(** the behaviour before the repair 1879631 (<> was pruned when min == max == v) was sound only
+    outside K5 as well: <> on a column holding, or bounded by, a value of another type or a NaN.
+    For <> with a Float64 query value the floats of the history and the query value must be 64-bit
+    patterns (the model keeps bit patterns as unbounded integers). *)
+Theorem might_match_pre_sound : forall b ops (node : bool) key o q,
   let s := run (init b) ops in
   let p := if node then nprops s else eprops s in
   (o = OpNe -> is_float q = true -> hist_vals_wf ops /\ value_wf q) ->
   ps_zone_class p key o q = false ->
-  ps_might_match p key o q = false -> forall n x, ps_get p n key = Some x -> sat o x q = false.
-Proof. exact might_match_sound_full. Qed.
-Print Assumptions might_match_sound.
+  ps_might_match_pre p key o q = false -> forall n x, ps_get p n key = Some x -> sat o x q = false.
+Proof. exact might_match_pre_sound_full. Qed.
+Print Assumptions might_match_pre_sound.
 
 (** find_nodes_in_range (pruned through the zone map, even when it is marked dirty) = the scan *)
 Theorem range_sound : forall b ops key lo hi li hi_i,
@@ -125,16 +134,18 @@ Proof.
 Qed.
 Print Assumptions zone_round_refuted.
 
-(** K5: the column holds Int 1 and a NaN; <> 1 is pruned although NaN <> 1 *)
-Theorem zone_ne_refuted : exists ops key q n x,
+(** K5 (repaired by 1879631): the column holds Int 1 and a NaN; before the repair <> 1 was pruned
+    although NaN <> 1; the current code does not prune *)
+Theorem zone_ne_pre_refuted : exists ops key q n x,
   let s := run (init true) ops in
-  ps_get (nprops s) n key = Some x /\ sat OpNe x q = true /\ node_might_match s key OpNe q = false.
+  ps_get (nprops s) n key = Some x /\ sat OpNe x q = true /\ ps_might_match_pre (nprops s) key OpNe q = false /\
+  node_might_match s key OpNe q = true.
 Proof.
   exists [CreateNode []; CreateNode []; SetNodeProp 0 1 (VInt 1); SetNodeProp 1 1 (VFloat 9221120237041090560)],
          1, (VInt 1), 1, (VFloat 9221120237041090560).
   vm_compute. repeat split; auto.
 Qed.
-Print Assumptions zone_ne_refuted.
+Print Assumptions zone_ne_pre_refuted.
 
 (** counts = enumerations *)
 Theorem count_enum : forall b ops, let s := run (init b) ops in
@@ -193,9 +204,9 @@ Example zone_scope_nonempty :
   let ops := [CreateNode []; CreateNode []; CreateNode []; SetNodeProp 0 1 (VFloat 4612811918334230528);
               SetNodeProp 1 1 (VInt 2); SetNodeProp 2 1 (VInt 3); SetEdgeProp 0 1 (VInt 4)] in
   let s := run (init true) ops in
-  ps_zone_class (nprops s) 1 OpLt (VInt 2) = false /\ node_might_match s 1 OpLt (VInt 2) = false /\
-  ps_zone_class (nprops s) 1 OpGe (VFloat 4612811918334230528) = false /\ node_might_match s 1 OpGe (VFloat 4612811918334230528) = true /\
-  ps_zone_class (eprops s) 1 OpNe (VInt 4) = false /\ edge_might_match s 1 OpNe (VInt 4) = false /\
+  ps_round_class (nprops s) 1 OpLt (VInt 2) = false /\ node_might_match s 1 OpLt (VInt 2) = false /\
+  ps_round_class (nprops s) 1 OpGe (VFloat 4612811918334230528) = false /\ node_might_match s 1 OpGe (VFloat 4612811918334230528) = true /\
+  ps_zone_class (eprops s) 1 OpNe (VInt 4) = false /\ ps_might_match_pre (eprops s) 1 OpNe (VInt 4) = false /\ edge_might_match s 1 OpGt (VInt 4) = false /\
   ps_range_class (nprops s) 1 (Some (VInt 3)) None false true = false /\ find_in_range s 1 (Some (VInt 3)) None false true = [].
 Proof. vm_compute. repeat split. Qed.
 
@@ -205,7 +216,7 @@ Example zone_scope_float_ne :
   let s := run (init true) ops in
   hist_vals_wf ops /\ value_wf (VFloat 4607182418800017408) /\
   ps_zone_class (nprops s) 1 OpNe (VFloat 4607182418800017408) = false /\
-  node_might_match s 1 OpNe (VFloat 4607182418800017408) = false.
+  ps_might_match_pre (nprops s) 1 OpNe (VFloat 4607182418800017408) = false.
 Proof.
   cbv zeta. split; [repeat constructor; unfold in_u64, two64; lia|]. split; [unfold value_wf, in_u64, two64; lia|]. vm_compute. split; reflexivity.
 Qed.
